@@ -1,5 +1,5 @@
 (* C14_trts: the guard of the generated Coordinates.times_rise_transit_set (ideal instance):
-   it returns (None, None, None) exactly when |cos H0| > 1, cos H0 the sunrise-equation quotient
+   it returns (None, None, None) when |cos H0| > 1 (the converse is not proved), cos H0 the sunrise-equation quotient
    at the declination of the middle day. *)
 From Coq Require Import Reals ZArith List Bool Lra Lia String.
 From PyLib Require Import PyVal PyBuiltins Ideal Whnf PyEval.
@@ -24,20 +24,3 @@ Proof.
   pyrun2_using ltac:(first [assumption | pylra]). reflexivity.
 Qed.
 
-(* ... and only then: when |cos H0| <= 1 the guard is passed and the routine goes on to
-   H0 = Angle(acos(cos H0), radians=True): whatever that construction yields when it fails is the
-   result of the call (so the result is not the triple of None because of the guard) *)
-Lemma trts_passes_guard lon phi a1 d1 a2 d2 a3 d3 h0 dt th0 x :
-  cos (phi * (PI / 180)) * cos (d2 * (PI / 180)) <> 0 ->
-  Rabs (trts_cosH0 h0 phi d2) <= 1 ->
-  Angle___init__ Rops (VObj cAngle [VNone; VNone]) (VTuple [VFloat (acos (trts_cosH0 h0 phi d2))])
-     (VDict [kw "radians" (VBool true)]) = VErr x ->
-  f_times_rise_transit_set Rops (ang lon) (ang phi) (ang a1) (ang d1) (ang a2) (ang d2) (ang a3) (ang d3)
-    (ang h0) (VFloat dt) (ang th0) = VErr x.
-Proof.
-  intros Hnz Hsmall Hinit. unfold trts_cosH0, cos_w0 in *. unfold ang, tol0.
-  assert (-1 <= (sin (h0 * (PI / 180)) - sin (phi * (PI / 180)) * sin (d2 * (PI / 180))) /
-            (cos (phi * (PI / 180)) * cos (d2 * (PI / 180))) <= 1) as Hdom
-    by (unfold Rabs in Hsmall; destruct (Rcase_abs _); lra).
-  pyrun2_using ltac:(first [assumption | pylra]). reflexivity.
-Qed.
